@@ -37,13 +37,13 @@ def repo():
     return os.environ.get("PV_REPO", "/repo")
 
 
-def dump(filt):
+def dump(filt, hooks=True):
     inc = [a for a in ("-I" + repo(), "-I" + os.path.join(ROOT, "_work", "build-plain")) if os.path.isdir(a[2:])]
     with tempfile.NamedTemporaryFile("w", suffix=".cc", dir="/var/tmp", delete=False) as f:
         f.write(TU)
         path = f.name
     try:
-        cmd = ["clang++", "-std=c++11", "-fsyntax-only", "-UPRIMITIV_VERIF_HOOKS"] + inc + \
+        cmd = ["clang++", "-std=c++11", "-fsyntax-only", "-DPRIMITIV_VERIF_HOOKS" if hooks else "-UPRIMITIV_VERIF_HOOKS"] + inc + \
               ["-Xclang", "-ast-dump=json", "-Xclang", "-ast-dump-filter=" + filt, path]
         p = subprocess.run(cmd, stdout=subprocess.PIPE, stderr=subprocess.PIPE, text=True, timeout=300)
     finally:
@@ -162,8 +162,13 @@ class Fn:
                 ty = (d.get("type") or {}).get("qualType", "")
                 init = d.get("inner", [None])[-1] if d.get("inner") else None
                 if "lock_guard" in ty or "unique_lock" in ty:
-                    if init is None or not any(var_name(a) == "mutex_" for a in strip_ctor_args(init)):
-                        self.fail("lock guard on something else than mutex_")
+                    # only the plain locking form `guard(mutex_)` IS a lock: with a second constructor argument
+                    # (std::defer_lock, std::try_to_lock, std::adopt_lock, a time-out) the mutex is not (known to
+                    # be) acquired here, and a default-constructed / moved-from guard holds nothing
+                    args = [a for a in (strip_ctor_args(init) if init is not None else []) if a.get("kind") != "CXXDefaultArgExpr"]
+                    if init is None or len(args) != 1 or var_name(args[0]) != "mutex_":
+                        self.fail("lock guard that is not the plain locking form `guard(mutex_)` (%d constructor argument(s): %s)"
+                                  % (len(args), ", ".join(var_name(a) or strip(a).get("kind", "?") for a in args)))
                     out.append("MLock")
                     g = True
                 elif init is not None and member_call(init) and member_call(init)[:2] == ("objects_", "find"):
@@ -260,8 +265,19 @@ def body_of(decl):
 
 
 def translate():
-    ident = specialization(dump("Identifiable"), "Identifiable")
-    dflt = specialization(dump("DefaultSettable"), "DefaultSettable")
+    """the bodies as compiled by every build of /verif (-DPRIMITIV_VERIF_HOOKS); the plain variant
+    (what users build) must give the same instruction lists"""
+    on = translate_variant(True)
+    off = translate_variant(False)
+    if on != off:
+        raise TranslateError("the mixin bodies differ between the -DPRIMITIV_VERIF_HOOKS build and the plain build: %s"
+                             % sorted(k for k in on if on[k] != off.get(k)))
+    return on
+
+
+def translate_variant(hooks):
+    ident = specialization(dump("Identifiable", hooks), "Identifiable")
+    dflt = specialization(dump("DefaultSettable", hooks), "DefaultSettable")
     res = {}
     for m in ident.get("inner", []):
         if m.get("isImplicit"):
@@ -302,9 +318,10 @@ def main():
     os.makedirs(os.path.dirname(OUT), exist_ok=True)
     old = open(OUT).read() if os.path.exists(OUT) else None
     if old != text:
-        with open(OUT + ".tmp", "w") as f:
+        tmp = "%s.tmp.%d" % (OUT, os.getpid())
+        with open(tmp, "w") as f:
             f.write(text)
-        os.replace(OUT + ".tmp", OUT)
+        os.replace(tmp, OUT)
     return OUT
 
 
